@@ -282,6 +282,12 @@ def Tokenizer.completed {σ} [DecidableEq σ] (t : Tokenizer σ) : σ → Bytes 
 def decodeRecords {σ} [DecidableEq σ] (t : Tokenizer σ) (bs : Bytes) : Nat × End :=
   (t.completed t.idle bs, if t.run t.idle bs = t.idle then .eos else .err)
 
+/-- a record is *prime* for a tokenizer: starting idle, the tokenizer is busy after every
+proper non-empty prefix and idle again exactly at the end (JSON: the closing brace) -/
+def Prime (t : Tokenizer σ) (r : Bytes) : Prop :=
+  2 ≤ r.length ∧ t.run t.idle r = t.idle ∧
+  ∀ j, 0 < j → j < r.length → t.run t.idle (r.take j) ≠ t.idle
+
 /-- the delimiter written between records (`\n`) -/
 def newline : Nat := 10
 
